@@ -42,6 +42,16 @@ func (c *c19) Configure(r *e.RNG, tier string) e.Config {
 	cfg.Replicas = 1
 	cfg.Flags["w_export"] = r.Range(1, 3)
 	cfg.Flags["byz_basic"] = 0
+	// pair_bias: token pairs exist early and governance toggles them often, so that
+	// exports contain disabled pairs
+	if r.Chance(0.35) {
+		cfg.Flags["pair_bias"] = 1
+		cfg.Flags["w_lv_liquidate"] = r.Range(4, 7)
+		cfg.Flags["w_vest_create"] = r.Range(3, 5)
+		cfg.Flags["w_govevm"] = r.Range(2, 4)
+		cfg.GovVotingSecs = r.Range(2, 15)
+		cfg.LVMinimum = "1"
+	}
 	return cfg
 }
 
